@@ -32,6 +32,10 @@ def odd(x):
   return x % 2 == 1
 
 
+def mod3(x):
+  return x % 3
+
+
 def gt(x, y):
   return x > y
 
@@ -64,7 +68,7 @@ def fail3(x):
   return x + 100
 
 
-FUNCS = dict(inc=inc, sub=sub, pair=pair, swap=swap, const7=const7, odd=odd, gt=gt, mkdict=mkdict, sumab=sumab,
+FUNCS = dict(inc=inc, sub=sub, pair=pair, swap=swap, const7=const7, odd=odd, gt=gt, mod3=mod3, mkdict=mkdict, sumab=sumab,
              ident=ident, failodd=failodd, fail3=fail3)
 
 
